@@ -339,6 +339,22 @@ func multiMembers() []multiMember {
 			orders: [][]string{{"tree.json"}, {"tree.json", "first.json"}, {"first.json", "tree.json"}}, selfRefKeys: []string{"parent", "children"},
 			outOf: map[string]string{"first.json": "out.go", "tree.json": "out.go"}, pkgOf: map[string]string{"out.go": "example.com/pkg/model"}})
 	}
+	// ... and a document recursive through # whose root type NAME (its title, under -t) is also the name of one of its definitions: the
+	// definition is generated first and owns the plain name, the root gets a suffix — "#" is still the root, found by identity
+	{
+		tcfg := base
+		tcfg.StructNameFromTitle = true
+		self := func() *fam.Spec { return &fam.Spec{RefRootOf: "#", Kind: "object"} }
+		d := objSpec(&fam.Prop{Label: "w", Spec: &fam.Spec{Kind: "integer"}, Required: true})
+		d.Ref, d.ConcreteDef = "$defs", "node"
+		tree := objSpec(&fam.Prop{Label: "nm", Spec: &fam.Spec{Kind: "string", Kw: []string{"minLength"}}, Required: true},
+			&fam.Prop{Label: "parent", Concrete: "parent", Spec: self()}, &fam.Prop{Label: "other", Spec: d})
+		tree.Title, tree.ConcreteTitle = true, "Node"
+		out = append(out, multiMember{name: "a document recursive through # whose title is also a definition's name", cfg: tcfg,
+			files:  []*fam.FileSpec{{Name: "tree.json", ID: "https://example.com/tree", Root: tree}},
+			orders: [][]string{{"tree.json"}}, selfRefKeys: []string{"parent"},
+			outOf: map[string]string{"tree.json": "out.go"}, pkgOf: map[string]string{"out.go": "example.com/pkg/model"}})
+	}
 	return out
 }
 
